@@ -2,6 +2,7 @@ import XeofsProofs.Bridge
 import XeofsProofs.Lemmas.Scale
 import XeofsProofs.Lemmas.SpecPow
 import XeofsProofs.Lemmas.Corr
+import XeofsProofs.Lemmas.CpccaModel
 /-!
 # C09 — cross-set models diagonalise the (partially whitened) cross-covariance
 -/
@@ -61,5 +62,21 @@ theorem src_consistent_normalisation (nn : ℝ) :
   constructor
   · simp [Gen.crossCovDenominator]
   · decide
+
+/-- **scores_cross_cov_diag on the executable model** (`XM.cpccaFit`, the definition the driver runs next to `CPCCA._fit_algorithm`):
+with any SVD of the model's own cross-covariance `XM.crossCov X Y` (normaliser generated from the source) and any sign choice,
+the cross-covariance of the two score sets is `diag σ` restricted to the kept modes -/
+theorem model_scores_cross_cov_diag {n p q r k : ℕ} (hk : k ≤ r) (X : XM.Mat n p 𝕜) (Y : XM.Mat n q 𝕜) (Q1 : XM.Mat p r 𝕜)
+    (s : Fin r → ℝ) (Q2 : XM.Mat q r 𝕜) (sgn : Fin k → ℝ) (hsgn : ∀ j, sgn j * sgn j = 1)
+    (h : XP.SVD.IsSVD (XM.crossCov (ρ := ℝ) X Y).toMatrix Q1.toMatrix s Q2.toMatrix) :
+    ((Gen.crossCovDenominator (n : ℝ) : ℝ) : 𝕜)⁻¹ •
+        (((XM.cpccaFit hk X Y Q1 s Q2 sgn).scores1.toMatrix)ᴴ * (XM.cpccaFit hk X Y Q1 s Q2 sgn).scores2.toMatrix)
+      = XP.EofM.rdiag (fun j => s (Fin.castLE hk j)) :=
+  XP.CpccaM.model_scores_cross_cov_diag hk X Y Q1 s Q2 sgn hsgn h
+
+/-- the model's cross-covariance is `XᴴY / (n − 1)` -/
+theorem model_cross_cov {n p q : ℕ} (X : XM.Mat n p 𝕜) (Y : XM.Mat n q 𝕜) :
+    (XM.crossCov (ρ := ℝ) X Y).toMatrix = (((n : ℝ) - 1 : ℝ) : 𝕜)⁻¹ • ((X.toMatrix)ᴴ * Y.toMatrix) := by
+  rw [XP.CpccaM.crossCov_toMatrix]; simp [Gen.crossCovDenominator]
 
 end C09
